@@ -15,6 +15,8 @@ for d in sorted(os.listdir(root), key=lambda x: (x[0] != "C", x)):
     if not os.path.isfile(mp) or not os.path.isfile(os.path.join(root, d, "patch.diff")):
         continue
     meta = json.load(open(mp))
+    if meta.get("kind") == "honest":
+        continue
     b = meta.get("breaks", "")
     det = meta.get("detected_by", {})
     total += 1
@@ -52,6 +54,31 @@ out = ["| change | needs, in order to manifest | quick checks that fire |", "|--
 out.append("")
 out.append("%d changes; %d caught by the quick check of the property they were written against, %d by at least one check; not caught: %s." % (
     total, own, caught_any, ", ".join(misses) or "none"))
+# honest patches (round 6): expected outcome = no check fires
+hon = []
+for d in sorted(os.listdir(root)):
+    mp = os.path.join(root, d, "meta.json")
+    if not os.path.isfile(mp):
+        continue
+    meta = json.load(open(mp))
+    if meta.get("kind") != "honest":
+        continue
+    det = meta.get("detected_by", {})
+    fired = sorted(p for p, r in det.items() if r.get("exit") == 1)
+    inc = sorted(p for p, r in det.items() if r.get("exit") == 2)
+    first = ""
+    try:
+        first = open(os.path.join(root, d, "notes.md")).read().strip().splitlines()[0][:200]
+    except OSError:
+        pass
+    hon.append("| %s | %s | %d of 20 quick checks run; fired: %s%s |" % (d, first.replace("|", "\\|"), len(det), ", ".join(fired) or "none", ("; inconclusive: " + ", ".join(inc)) if inc else ""))
+if hon:
+    out.append("")
+    out.append("Honest patches (round 6; every check is expected to stay silent):")
+    out.append("")
+    out.append("| patch | what it is (first line of its notes) | outcome |")
+    out.append("|---|---|---|")
+    out.extend(hon)
 text = "\n".join(out)
 open(os.path.join(root, "MATRIX.md"), "w").write(text + "\n")
 dp = os.path.join(VERIF, "DESIGN.md")
